@@ -227,6 +227,54 @@ impl World {
         self.after_direct(sink, &text, &op, res, before);
     }
 
+    /// `entry(i)` taken and dropped without using it: panics exactly when `i` is out of range (C17)
+    pub fn entry_unused(&mut self, sink: &mut Sink, i: usize) {
+        let (text, len, res) = if let Some(t) = self.txn.as_mut() {
+            let len = t.len();
+            (format!("t.entry {i}"), len, catch(move || { let _e = t.entry(i); }))
+        } else {
+            let ov = self.ov.as_mut().unwrap();
+            let len = ov.len();
+            (format!("entry {i} none"), len, catch(move || { let _e = ov.entry(i); }))
+        };
+        sink.stat("op.entry_unused");
+        if res.is_ok() != (i < len) {
+            sink.oracle_fail("C17", &format!("{text}: {} although the length is {len}", if res.is_ok() { "handed out an entry" } else { "panicked" }));
+        }
+        if res.is_err() { self.panic_seen = true; }
+        sink.line(&text, if res.is_ok() { "ok" } else { "panic" });
+    }
+    /// `set` / `remove` through the transaction's `entry(i)`
+    pub fn txn_entry(&mut self, sink: &mut Sink, i: usize, set: Option<V>) {
+        let before = self.tvals();
+        let t = self.txn.as_mut().unwrap();
+        let res = catch(move || {
+            let mut e = t.entry(i);
+            match set {
+                Some(v) => eyeball_im::ObservableVectorTransactionEntry::set(&mut e, v).to_string(),
+                None => eyeball_im::ObservableVectorTransactionEntry::remove(e).to_string(),
+            }
+        });
+        let op = match set { Some(v) => Op::Set(i, v), None => Op::Rem(i) };
+        let after = self.tvals();
+        let mut rf = self.tref.clone();
+        let expect = op.reference(&mut rf);
+        let text = match set { Some(v) => format!("t.eset {i} {v}"), None => format!("t.erem {i}") };
+        sink.stat("top.entry");
+        match (&res, &expect) {
+            (Ok(ret), Ok((eret, _))) => {
+                if ret != eret || after != rf { sink.oracle_fail("C17", &format!("{text}: returned {ret} / working contents {after:?}, a plain vector gives {eret} / {rf:?}")); }
+                self.tref = after.clone();
+                if self.rx_count() > 0 { self.tsize += 1; }
+            }
+            (Err(()), Err(())) => { self.panic_seen = true; if after != before { sink.oracle_fail("C17", &format!("{text}: panicked but changed the working contents")); } }
+            (Ok(ret), Err(())) => { sink.oracle_fail("C17", &format!("{text}: out of range but returned {ret}")); self.tref = after.clone(); }
+            (Err(()), Ok(_)) => sink.oracle_fail("C17", &format!("{text}: in range but panicked")),
+        }
+        let shown = match res { Ok(r) => r, Err(()) => "panic".into() };
+        sink.line(&text, &format!("{shown} tvals={}", fmt_list(&after)));
+    }
+
     /// reference traversal: visited (index reported, item), final contents
     fn ref_traverse(start: &[V], decs: &[Dec]) -> (Vec<(usize, V)>, Vec<V>) {
         let mut out = vec![];
@@ -701,6 +749,37 @@ pub fn run(args: &Args, sink: &mut Sink) {
         }
     }
     sink.stat_n("exhaustive.A", n);
+    // E. entries: `entry(i)` for every index 0..len+1 — taken and dropped unused, used for set, used for remove —
+    //    on the vector and inside a transaction (also after the transaction changed the length)
+    let mut ne = 0u64;
+    for len in 0..=3usize {
+        let init: Vec<V> = (1..=len as V).collect();
+        for i in 0..=len + 1 {
+            for pre in 0..3 {
+                ne += 1;
+                sink.case(&format!("E{ne}"));
+                let mut w = World::new(sink, 16);
+                if !init.is_empty() { w.direct(sink, &Op::Append(init.clone())); }
+                let p = w.subscribe(sink, false);
+                w.entry_unused(sink, i);
+                w.entry(sink, i, Some(9));
+                w.entry_unused(sink, i);
+                w.txn_begin(sink);
+                match pre { 0 => {} 1 => w.txn_op(sink, &Op::PopB), _ => w.txn_op(sink, &Op::PushB(7)) }
+                w.entry_unused(sink, i);
+                w.txn_entry(sink, i, Some(8));
+                w.entry_unused(sink, i);
+                w.txn_entry(sink, i, None);
+                w.entry_unused(sink, i);
+                w.txn_commit(sink);
+                w.entry(sink, i, None);
+                w.drain(sink, p);
+                w.finish(sink);
+                sink.nontrivial();
+            }
+        }
+    }
+    sink.stat_n("exhaustive.E", ne);
     // B. transactions, exhaustive bodies of length <= 2 (thorough 3), every way of ending, with and without subscribers
     let mut nb = 0u64;
     for len in [0usize, 2] {
@@ -818,7 +897,9 @@ pub fn run(args: &Args, sink: &mut Sink) {
             let c = r.below(100);
             if w.in_txn() {
                 match c {
-                    0..=54 => { let op = random_op(&mut r, len); w.txn_op(sink, &op) }
+                    0..=48 => { let op = random_op(&mut r, len); w.txn_op(sink, &op) }
+                    49..=52 => { let i = if r.chance(1, 4) { len + r.below(2) } else { r.below(len + 1) }; let s = if r.chance(1, 2) { Some(1 + r.below(6) as V) } else { None }; w.txn_entry(sink, i, s) }
+                    53..=54 => { let i = if r.chance(1, 2) { len + r.below(2) } else { r.below(len + 1) }; w.entry_unused(sink, i) }
                     55..=59 => { let d = random_decs(&mut r, len); w.txn_for_each(sink, &d) }
                     60..=66 => w.txn_rollback(sink),
                     67..=80 => w.txn_commit(sink),
@@ -830,7 +911,8 @@ pub fn run(args: &Args, sink: &mut Sink) {
             } else {
                 match c {
                     0..=39 => { let op = random_op(&mut r, len); w.direct(sink, &op) }
-                    40..=43 => { let i = if r.chance(1, 6) { len + r.below(2) } else { r.below(len + 1) }; let s = if r.chance(1, 2) { Some(1 + r.below(6) as V) } else { None }; w.entry(sink, i, s) }
+                    40..=42 => { let i = if r.chance(1, 6) { len + r.below(2) } else { r.below(len + 1) }; let s = if r.chance(1, 2) { Some(1 + r.below(6) as V) } else { None }; w.entry(sink, i, s) }
+                    43 => { let i = if r.chance(1, 2) { len + r.below(2) } else { r.below(len + 1) }; w.entry_unused(sink, i) }
                     44..=47 => { let d = random_decs(&mut r, len); w.for_each(sink, &d) }
                     48..=55 => w.txn_begin(sink),
                     56..=63 if live.len() < 4 => { let b = r.chance(1, 2); w.subscribe(sink, b); }
